@@ -898,7 +898,13 @@ class OmniParser(PVLParser):
                         )
                         return module, False  # return through parse_module()
                 else:
+                    # The previous value cannot serve as a parameter name,
+                    # so there is nothing to repair: return the token and
+                    # signal parse_module() that it should ignore us
+                    # (answering "keep parsing" here never consumes the '='
+                    # and loops forever).
                     tokens.send(t)
+                    raise Exception
             else:
                 # The next token isn't an equals sign or the module is
                 # empty, so we want return the token and signal
